@@ -78,6 +78,19 @@ def correspondence(ctx, drv):
             ctx.violation("an event in the output is not an enabled transition of the specification (positive rate) in the state before it",
                           dict(rep, event=bad))
             continue
+        if plain["ok"]:
+            # the returned counts and the node histories of the same run (same draws) must describe the same epidemic
+            final = [h[-1][1] for h in out["history"]]
+            want = [sum(1 for s_ in final if s_ == x) for x in c["return_statuses"]]
+            got = [col[-1] for col in plain["cols"]]
+            sums = [sum(col[i] for col in plain["cols"]) for i in range(len(plain["times"]))]
+            if want != got:
+                ctx.violation("the last row of the returned counts %s differs from the final statuses in the node histories of the same run %s" % (got, want),
+                              dict(rep, arrays=plain, final_statuses=final))
+                continue
+            if set(c["return_statuses"]) >= set(c["statuses"]) and any(x != c["n"] for x in sums):
+                ctx.violation("a row of the returned counts does not sum to N although every status is returned", dict(rep, arrays=plain))
+                continue
         if not m.get("ok"):
             ctx.disagreement("simple-model-error", dict(rep, model=m))
             continue
